@@ -181,7 +181,8 @@ def seg(draw):
     return draw(st.text(alphabet=NAME_ALPHA, min_size=1, max_size=5))
 
 
-COMMENTS = [None, None, None, "comment", "with = and [brackets]", "units: m/s", "#double", " spaced  "]
+COMMENTS = [None, None, None, "comment", "with = and [brackets]", "units: m/s", "#double", " spaced  ",
+            'a """ mark', 'see the """docstring""" above']      # triple quotes in a comment open nothing
 
 
 @st.composite
